@@ -11,7 +11,7 @@
    null pointer is undefined behaviour in Rust; the model makes it the visible
    result [RUB].  No proofs in this file. *)
 From Coq Require Import List NArith Bool.
-From DesVerif Require Import Common.Codec Body.Derive.
+From DesVerif Require Import Common.Codec Body.Derive Body.StdLen.
 Import ListNotations.
 Open Scope N_scope.
 
@@ -48,7 +48,7 @@ Definition de_len (v : N) : N :=
 Definition mk (norm len : N -> N) (size : N) (c s l : bool) : tinfo :=
   {| ti_norm := norm; ti_len := len; ti_size := size; ti_clone := c; ti_ser := s; ti_logs := l |}.
 
-Definition info (tag : N) : tinfo :=
+Definition info_small (tag : N) : tinfo :=
   let m32 := fun v => v mod P32 in
   match tag with
   | 1 => mk m32 (fun _ => 4) 4 true false false                     (* u32 *)
@@ -70,6 +70,15 @@ Definition info (tag : N) : tinfo :=
   | 17 => mk (fun _ => 0) (fun _ => 0) 0 true false false           (* () *)
   | _ => mk (fun v => v) (fun _ => 0) 0 true false false
   end.
+
+(* Tags from STD_BASE on: the family of std types of Body/StdLen.v.  The model value is the packed list
+   of script numbers the Rust value is built from; its byte length is the structural one. *)
+Definition STD_BASE : N := 100.
+Definition std_info (fam : N) : tinfo :=
+  mk (fun v => v) (fun v => std_byte_len (fam_value fam (unpack v))) 0 true false false.
+
+Definition info (tag : N) : tinfo :=
+  if STD_BASE <=? tag then std_info (tag - STD_BASE) else info_small tag.
 
 (* ---- ghost heap ---- *)
 Record cell := { ctag : N; cval : N; cser : N; cdrops : N }.
@@ -404,7 +413,7 @@ Definition run_ops (ops : list op) : list (res * list N) := snd (run_from init o
 Definition final (ops : list op) : state := fst (run_from init ops).
 
 (* ---- wire format ---- *)
-(* script: 0 op*   | 1 decl (Derive.run_derive) | 2 fam k l* (Derive.run_family) *)
+(* script: 0 op*   | 1 decl (Derive.run_derive) | 2 fam k l* (Derive.run_family) | 3 fam mode n* (run_std) *)
 Definition ctag_of (t : N) : N := 1 + t mod NT.
 
 Definition dec_op (l : list N) : option (op * list N) :=
@@ -454,10 +463,23 @@ Definition run_body (l : list N) : list N :=
   let '(st, xs) := run_from init (decode_all dec_op l) in
   flat_map enc_step xs ++ 14 :: (next_ser (smem st) - 1) :: enc_log (log_between st (finish st)).
 
+(* kind-3 script: fam mode n*  — a message whose content is the fam-th std type built from the numbers n*
+   (Body::new for even mode, Body::new_non_clonable for odd); record 16 byte_len Message::length charged *)
+Definition run_std (l : list N) : list N :=
+  match l with
+  | fam :: mode :: ns =>
+      match map fst (run_ops [ONew 0 (mode mod 2) (STD_BASE + fam mod NFAM) (pack ns) 0; OLength 0]) with
+      | [RNew _ blen; RLen mlen] => [16; blen; mlen; mlen]
+      | _ => [66]
+      end
+  | _ => [7]
+  end.
+
 Definition run (input : list N) : list N :=
   match input with
   | 0 :: r => run_body r
   | 1 :: r => run_derive r
   | 2 :: r => run_family r
+  | 3 :: r => run_std r
   | _ => [7]
   end.
